@@ -287,12 +287,11 @@ static void exec_op(char* text0) {
     e->state = H_LIVE; nh++;
     RET(0);
   }
-  if (!strcmp(o, "start") && live(i)) {
+  if (!strcmp(o, "start") && nw == 4 && live(i)) {   /* uniform shape: start hN a b */
     hent* e = &H[i]; int closing = uv_is_closing(e->ptr); int r;
-    if (e->kind == K_TIMER && nw == 4) RET(uv_timer_start((uv_timer_t*) e->ptr, timer_cb, strtoull(w[2], 0, 10), strtoull(w[3], 0, 10)));
+    if (e->kind == K_TIMER) RET(uv_timer_start((uv_timer_t*) e->ptr, timer_cb, strtoull(w[2], 0, 10), strtoull(w[3], 0, 10)));
     if (closing) BAD;
-    if (e->kind == K_POLL && nw == 3) { int m = atoi(w[2]); if (m < 0 || m > 15) BAD; RET(uv_poll_start((uv_poll_t*) e->ptr, m, poll_cb)); }
-    if (nw != 2) BAD;
+    if (e->kind == K_POLL) { int m = atoi(w[2]); if (m < 0 || m > 15) BAD; RET(uv_poll_start((uv_poll_t*) e->ptr, m, poll_cb)); }
     switch (e->kind) {
     case K_IDLE: RET(uv_idle_start((uv_idle_t*) e->ptr, idle_cb));
     case K_PREPARE: RET(uv_prepare_start((uv_prepare_t*) e->ptr, prepare_cb));
